@@ -520,6 +520,10 @@ func specToGo(s string, resultName string) string {
 					sb.WriteString("__rlocks")
 				case w == "wlocked" && next == '(':
 					sb.WriteString("__wlocked")
+				case w == "samemap" && next == '(':
+					sb.WriteString("__samemap")
+				case w == "samecontent" && next == '(':
+					sb.WriteString("__samecontent")
 				case w == "haskey" && next == '(':
 					sb.WriteString("__haskey")
 				case w == "visited" && next == '(':
